@@ -165,12 +165,42 @@ theorem rejected_stays_rejected (q q1 : Req) (e : Err) (h : q.body = (.error e, 
           · cases hl
   · cases h
 
-/-- with the `errors_map` of the source both client errors of the body reader are answered 4xx -/
+/-- `4xx` -/
+def is4xx : Err → Bool
+  | .http st => 400 ≤ st && st < 500
+  | _ => false
+
+/-- with the `errors_map` of the source (regenerated from `DefaultConfig.errors_map` on every
+run) both client errors of the body reader are answered 4xx -/
 theorem chunked_400 (e : Err) (h : e = .bodyParsingError ∨ e = .bodySizeError) :
-    ∃ st, raise_ Ombott.Gen.errorsMap e "RequestError" = .http st ∧ 400 ≤ st ∧ st < 500 := by
-  rcases h with rfl | rfl
-  · exact ⟨400, by decide, by decide, by decide⟩
-  · exact ⟨413, by decide, by decide, by decide⟩
+    is4xx (raise_ Ombott.Gen.errorsMap e "RequestError") = true := by
+  rcases h with rfl | rfl <;> decide
+
+/-- hence a chunked request is answered 2xx-or-4xx as far as the body reader is concerned:
+whatever the bytes, `Request.body` under the `errors_map` of the source either succeeds or raises
+an `HTTPError` with a 4xx status (given a well-formed or absent Content-Length header) -/
+theorem chunked_request_4xx (q : Req) (e : Err) (cl : Int) (hmap : q.cfg.errorsMap = Ombott.Gen.errorsMap)
+    (hcl : contentLength q.clHeader = .ok cl) (hc : q.cache = none) (hb : q.bodyError = none)
+    (h : (q.body).1 = .error e) : is4xx e = true := by
+  unfold Req.body Req.loadBody at h
+  rw [hc, hb, hcl] at h
+  simp only at h
+  rcases hbr : bodyRead q.cfg.memfile cl (isChunked q.teHeader) q.cfg.maxBody q.input with ⟨res, r'⟩
+  rw [hbr] at h
+  cases res with
+  | ok sk => simp at h
+  | error e2 =>
+    have h1 : (bodyRead q.cfg.memfile cl (isChunked q.teHeader) q.cfg.maxBody q.input).1 = .error e2 := by
+      rw [hbr]
+    have h2 : e2 = .bodyParsingError ∨ e2 = .bodySizeError := by
+      cases hch : isChunked q.teHeader with
+      | true => rw [hch] at h1; exact chunked_total _ _ _ _ _ h1
+      | false => rw [hch] at h1; exact Or.inr (cl_total _ _ _ _ _ h1)
+    have h3 : isRequestError e2 = true := by rcases h2 with rfl | rfl <;> rfl
+    simp only [h3, if_true, Except.error.injEq] at h
+    subst h
+    rw [hmap]
+    exact chunked_400 e2 h2
 
 section NonVacuity
 /-- a legal two-chunk encoding with upper-case hex, a leading zero, an extension and a trailer,
